@@ -160,12 +160,54 @@ where
     let mut br = LogRng::new(6);
     if let Out::Ok(bp) = guarded(|| A::PC::batch_open(&ck, lps.iter(), comms.iter(), &qs, &mut spb, states.iter(), Some(&mut br as &mut dyn RngCore))) {
         let bsz = bp.serialized_size(Compress::Yes);
-        if lin == 0 && bsz != 8 + 2 * psz {
-            return fail(format!("batch proof over 2 points has {} bytes, expected 8 + 2 x {}", bsz, psz));
+        let want_b = if v["batch2"].is_object() { units(&v["batch2"], g, g2, fr) } else { 8 + 2 * psz };
+        if lin == 0 && (bsz != 8 + 2 * psz || bsz != want_b) {
+            return fail(format!("batch proof over 2 points has {} bytes, the law gives {} (= 8 + 2 x {})", bsz, want_b, psz));
         }
         let _: Option<Evaluations<A::Pt, A::F>> = None;
     } else {
         return fail("batch_open failed".into());
+    }
+    // the same law for a MIXED batch: polynomials without a bound, with the largest and with a smaller enforced
+    // bound, all queried at the same two points (schemes with degree bounds)
+    if lin == 0 && bound && deg >= 2 && matches!(A::NAME, "marlin" | "sonic" | "ipa") {
+        let b2 = (deg / 2).max(1);
+        let bl2 = [deg as usize, b2 as usize];
+        let mut beh2 = beh.clone();
+        beh2.bounds = vec![deg, b2];
+        let (ck2, _vk2) = match guarded(|| A::PC::trim(&pp, beh.supported as usize, 1, Some(&bl2[..]))) {
+            Out::Ok(x) => x,
+            o => return fail(format!("trim with two bounds: {}", o.detail())),
+        };
+        let h = if hid { 1 } else { -1 };
+        let specs = [
+            PolySpec { l: 21, cls: "full".into(), deg, lz: 0, bound: -1, hid: h },
+            PolySpec { l: 22, cls: "full".into(), deg, lz: 0, bound: deg, hid: h },
+            PolySpec { l: 23, cls: "full".into(), deg: b2, lz: 0, bound: b2, hid: h },
+        ];
+        let mps: Vec<_> = specs.iter().map(|sp_| crate::session::labeled_poly::<A>(sp_, &beh2, 0)).collect();
+        let mut cr3 = LogRng::new(13);
+        let (mc, ms) = match guarded(|| A::PC::commit(&ck2, mps.iter(), Some(&mut cr3 as &mut dyn RngCore))) {
+            Out::Ok(x) => x,
+            o => return fail(format!("commit (mixed bounds): {}", o.detail())),
+        };
+        let mut qs = QuerySet::new();
+        for lp in &mps {
+            qs.insert((lp.label().clone(), (qlabel(1), point.clone())));
+            qs.insert((lp.label().clone(), (qlabel(2), p2.clone())));
+        }
+        let mut spm = LogSponge::<A::F>::fresh();
+        let mut mr = LogRng::new(14);
+        match guarded(|| A::PC::batch_open(&ck2, mps.iter(), mc.iter(), &qs, &mut spm, ms.iter(), Some(&mut mr as &mut dyn RngCore))) {
+            Out::Ok(bp) => {
+                let bsz = bp.serialized_size(Compress::Yes);
+                let want_b = if v["batch2"].is_object() { units(&v["batch2"], g, g2, fr) } else { 8 + 2 * psz };
+                if bsz != want_b {
+                    return fail(format!("batch proof over 2 points for polynomials with bounds none / {} / {} has {} bytes, the law gives {}", deg, b2, bsz, want_b));
+                }
+            }
+            o => return fail(format!("batch_open (mixed bounds): {}", o.detail())),
+        }
     }
     let _ = &mut rng;
     json!({"ok": true, "why": "", "comm": want_c, "proof": psz})
